@@ -51,11 +51,27 @@ func main() {
 		replay(r)
 		return
 	}
+	sweepStale()
 	if err := os.MkdirAll(scratchDir(), 0700); err != nil {
 		vk.Fatalf("scratch: %v", err)
 	}
-	defer os.RemoveAll(scratchDir())
 	u := buildUniverse(!r.Quick(), allCfgs)
+	ops := u.ops()
+	var opNames []string
+	for _, o := range ops {
+		opNames = append(opNames, u.opName(o))
+	}
+	r.Set("alphabet", opNames)
+	var txs []string
+	for _, t := range u.txs {
+		txs = append(txs, fmt.Sprintf("%s: %s, sender %d nonce %d", t.Name, t.Class, t.Sender, t.Nonce))
+	}
+	r.Set("transactions", txs)
+	r.Set("pool_configurations", allCfgs)
+	if orderControlled = seamActive(u, "default"); !orderControlled {
+		r.Capped("the build has no promotion-order seam (tools/gen_c15_maporder.py did not find the loop in promoteExecutables): Go's random map order decides which queued sender is promoted first; orders are not enumerated and counts may vary between runs")
+	}
+	r.Set("promotion_order_controlled", orderControlled)
 	states, trans, evals := 0, 0, 0
 
 	if *flagPart == "all" || *flagPart == "seq" {
@@ -76,7 +92,11 @@ func main() {
 		}
 		t0 := time.Now()
 		var per []interface{}
-		for _, st := range runSeq(r, u, specs, 25) {
+		mergeEvery := 25
+		if !orderControlled {
+			mergeEvery = 0 // successors are not a function of the state when Go's map order decides
+		}
+		for _, st := range runSeq(r, u, specs, mergeEvery) {
 			fmt.Printf("seq/%-16s depth %d: states=%d transitions=%d disabled=%d per_depth=%v order_variants=%d merge_checks=%d reaps=%d capped=%v\n",
 				st.Name, st.Depth, st.States, st.Transitions, st.Disabled, st.PerDepth, st.OrderVariants, st.MergeChecks, st.Reaps, st.Capped)
 			fmt.Printf("    AddTx results: %v\n", st.AddResults)
@@ -95,6 +115,7 @@ func main() {
 		evals += e
 	}
 	u.close()
+	os.RemoveAll(scratchDir())
 	r.Set("states", states)
 	r.Set("transitions", trans)
 	r.Set("traces_validated_against_impl", trans)
